@@ -17,7 +17,7 @@ LEAN_MODULES = ["Ccp.Props.C09"]
 RULE = ("bundle cases: one base config (random line list of 0..14 lines from the tree generators: commands, comments, blank and "
         "whitespace-only lines incl. interior and trailing blank lines, banner/macro blocks, Latin-1 and non-Latin-1 letters) is "
         "supplied in every input form: list, tuple, str joined with LF or CRLF with and without a final line end, None for the "
-        "empty config, pathlib.Path, and real files (scratch directory made with tempfile, the process chdir()s into it, the "
+        "empty config, and real files given by their relative name as a str or as a pathlib.Path (Path names incl. ./p.cfg and .//p.cfg, whose str() differs from the text given) (scratch directory made with tempfile, the process chdir()s into it, the "
         "relative file name is the constructor argument, the directory is removed at the end of the case) whose bytes are the "
         "lines joined with LF, CRLF, bare CR or a per-line random mix, with/without final line end, encoded as utf-8 or latin-1 "
         "(encoding= set accordingly; for latin-1 the base lines are restricted to code points < 256); file names include "
@@ -28,21 +28,23 @@ RULE = ("bundle cases: one base config (random line list of 0..14 lines from the
         "is what Windows' default does). unclean stream: list/tuple items containing CR, LF, VT, FF, FS, GS, RS, NEL, LS, PS. "
         "raw stream: random and exhaustive (alphabet a,LF,CR,VT; all texts up to length 5 quick / 6 thorough) texts as str form "
         "and as file content. malformed stream: '', single-line strings that name no file, a str ending in a line break, "
-        "missing file. split cases: str.splitlines, re.split(<default linesplit_rgx of read_config_file>) and newline=None "
+        "missing file given as str and as pathlib.Path. split cases: str.splitlines, re.split(<default linesplit_rgx of read_config_file>) and newline=None "
         "translation (io.StringIO) on the same texts, compared with the model's primitives. Directories, unreadable files, "
         "undecodable bytes, non-str list items, lone surrogates, factory=True and syntax='junos' are not generated. "
         "non-trivial = a bundle with >= 2 lines or a raw text containing a line break; distinct by request line.")
 LEVEL_TEXT = ("Theorems (Lean 4, all line lists / all texts / any number of cycles): for break-free lines (>= 2, last one not empty) "
               "list, tuple and the str joined with LF or CRLF, with or without a final line end, are read as the same lines and give "
-              "the same tree; a str with exactly one line is treated as a path (FileNotFoundError if nothing is there), '' is "
-              "rejected; a path yields universal-newline translation followed by the \\r*\\n split, which is the unique LF-free "
+              "the same tree; a pathlib.Path is read exactly like str(path); a str with exactly one line is treated as a path "
+              "(FileNotFoundError if nothing is there), '' is rejected; a path yields universal-newline translation followed by the \\r*\\n split, which is the unique LF-free "
               "splitting of the translated text (trailing empty element kept); from the first save on, any number of load/save "
               "cycles writes the same text and reads the same lines, for every tree configuration incl. ignore_blank_lines and "
               "os.linesep LF or CRLF. The reader/writer constants of /repo are regenerated and proved equal to the modelled ones. "
               "Model tied to CiscoConfParse by differential runs with real temp files on every check.")
 LEVEL_NOTE = ("Trusted: Lean kernel, axioms propext/Classical.choice/Quot.sound, the harness. Modelled not verified: text-mode open() "
               "(universal newlines on read, '\\n' -> os.linesep on write) as pure functions on decoded text; encodings are outside the "
-              "model (the harness covers utf-8 and latin-1 content); the file system is a function parameter.")
+              "model (the harness covers utf-8 and latin-1 content); the file system is a function parameter; a pathlib.Path enters the "
+              "model as its str() (path normalisation by pathlib is outside the model). F91 (Path input raised TypeError) is fixed in "
+              "/repo (373e51f); a recurrence is reported as a VIOLATION.")
 EXHAUSTIVE = {"quick": False, "thorough": False}
 ASSUMPTIONS = [
     "a file is its decoded text; decoding errors (UnicodeDecodeError) are outside the model",
@@ -54,6 +56,10 @@ TRUSTED = ["model of text-mode open(): universalNewlines / writeNewlines", "tree
 
 BREAKS = ["\n", "\x0b", "\x0c", "\r", "\x1c", "\x1d", "\x1e", "\x85", " ", " "]
 FNAMES = ["c.cfg", "c.cfg", "c.cfg", "my config.txt", "é.cfg", "a\x1fb", "cfg\n", "cfg\r\n", "a\x0bb.cfg", "c\x85"]
+
+
+# names whose Path renders differently from the text given: './p.cfg' -> 'p.cfg'
+PATH_NAMES = ["p.cfg", "./p.cfg", ".//p.cfg"]
 
 
 def _has_break(s):
@@ -84,12 +90,20 @@ def _req(case):
         elif kind == "file":
             fields += ["str", wire.enc_str(f["name"]), wire.enc_str(f["name"]), wire.enc_str(f["content"])]
         elif kind == "pathlib":
-            fields += ["path", wire.enc_str(f["name"]), wire.enc_str(f["name"]), wire.enc_str(f["content"])]
+            fields += ["path", wire.enc_str(path_text(f["name"])), wire.enc_str(path_text(f["name"])), wire.enc_str(f["content"])]
+        elif kind == "pathlib_missing":
+            fields += ["path", wire.enc_str(path_text(f["name"])), "s", "-"]
         elif kind == "missing":
             fields += ["str", wire.enc_str(f["name"]), "s", "-"]
         else:
             raise AssertionError(kind)
     return "\t".join(fields)
+
+
+def path_text(name):
+    """`str(pathlib.Path(name))`: what read_config() turns a Path into ('./x' -> 'x', '' -> '.')"""
+    import pathlib
+    return str(pathlib.PurePosixPath(name))
 
 
 def mk_bundle(syntax, ign, linesep, cycles, forms, base=None, origin="gen", tag="bundle"):
@@ -143,8 +157,11 @@ def bundle_from_lines(rng, ls, syntax, ign, linesep, cycles, tag="bundle"):
         else:
             content = sep.join(src) + end
         forms.append(file_form(rng.choice(FNAMES), content, enc))
-    if rng.random() < 0.15:
-        forms.append(file_form("p.cfg", "\n".join(ls), "utf-8", form="pathlib"))
+    if rng.random() < 0.4:
+        enc = rng.choice(["utf-8", "latin-1"])
+        src = lat if enc == "latin-1" else ls
+        sep = rng.choice(["\n", "\r\n", "\r"])
+        forms.append(file_form(rng.choice(FNAMES + PATH_NAMES), sep.join(src) + rng.choice(["", sep]), enc, form="pathlib"))
     return mk_bundle(syntax, ign, linesep, cycles, forms, base=ls, tag=tag)
 
 
@@ -186,6 +203,8 @@ def cases(rng, tier):
         for s in MALFORMED_STR:
             yield mk_bundle("ios", False, "\n", 1, [{"form": "str", "text": s}], tag="malformed")
         yield mk_bundle("ios", False, "\n", 1, [{"form": "missing", "name": "nothing here.cfg"}], tag="malformed")
+        for nm in ("nothing here.cfg", "./gone.cfg", "no\x1fsuch", "gone\n"):
+            yield mk_bundle("ios", False, "\n", 1, [{"form": "pathlib_missing", "name": nm}], tag="malformed")
         for name, lines in T.fixture_configs()[: (3 if tier == "quick" else 40)]:
             if all(not _has_break(l) for l in lines):
                 yield bundle_from_lines(rng, lines, "ios", False, "\n", 2, tag="fixture")
@@ -357,7 +376,7 @@ def impl(case):
                     fh.write(f["content"].encode(enc))
             arg = {"list": lambda: list(f["lines"]), "tuple": lambda: tuple(f["lines"]), "none": lambda: None,
                    "str": lambda: f["text"], "file": lambda: f["name"], "missing": lambda: f["name"],
-                   "pathlib": lambda: pathlib.Path(f["name"])}[kind]()
+                   "pathlib": lambda: pathlib.Path(f["name"]), "pathlib_missing": lambda: pathlib.Path(f["name"])}[kind]()
             with _Linesep(mod, case["linesep"]):
                 try:
                     first = CiscoConfParse(arg, encoding=enc, **kw)
@@ -447,8 +466,11 @@ def oracle(case, ans):
             else:
                 want = sl
         elif kind in ("file", "pathlib"):
-            want = ref_file_lines(f["content"]) if len(ref_str_lines(f["name"])) == 1 else ref_str_lines(f["name"])
+            name = f["name"] if kind == "file" else path_text(f["name"])      # a Path is read like str(path)
+            want = ref_file_lines(f["content"]) if len(ref_str_lines(name)) == 1 else ref_str_lines(name)
         elif kind == "missing":
+            want = "err:FileNotFoundError"
+        elif kind == "pathlib_missing":
             want = "err:FileNotFoundError"
         if isinstance(want, str):
             if not a.startswith(want):
@@ -501,9 +523,3 @@ def oracle(case, ans):
         if len(set(dumps.values())) > 1:
             fails.append("list / tuple / multi-line string forms of one config disagree: " + ", ".join(sorted(dumps)))
     return fails[:4]
-
-
-def known_id(case, failure):
-    if failure.startswith("pathlib:") and "raised err:TypeError" in failure:
-        return "F91"
-    return None
